@@ -10,6 +10,9 @@ import Frp.Model.Str
     client/connector.go      realConnect / Open (quic)                         → `clientTls`, `clientDial`
     pkg/util/net/dial.go     DialHookCustomTLSHeadByte                         → `Dial.customByte`
     server/service.go        HandleListener / handleConnection                 → `reachesReadMsg`, `rawReply`
+    server/service.go        NewService (listeners, quicTLSCfg) / Run / HandleQUICListener
+                                                                               → `Listener`, `Listener.gate`, `quicServerTls`,
+                                                                                 `listenerTls`, `reachesReadMsgOn`, `sessionUpOn`
     server/control.go, client/control.go  NewControl (NewCryptoReadWriter iff ctlConnEncrypted)
     server/service.go:RegisterControl (passes `!internal`)                     → `controlEncrypted`
     pkg/msg/msg.go + every WriteMsg / dispatcher.Send site                     → `carries`, `channel`
@@ -84,6 +87,7 @@ structure ServerTls where
   clientAuth : ClientAuth
   hasClientCAs : Bool
   randomCert : Bool         -- self-generated RSA key pair, template without names
+  nextProtos : List Str := []   -- tls.Config.NextProtos (ALPN); NewServerTLSConfig leaves it nil
   deriving DecidableEq, Repr
 
 def serverTlsOf (certGiven caGiven : Bool) : ServerTls :=
@@ -118,6 +122,7 @@ structure ClientTls where
   serverName : Str
   hasRootCAs : Bool
   hasCert : Bool
+  nextProtos : List Str := []   -- tls.Config.NextProtos; NewClientTLSConfig leaves it nil
   deriving DecidableEq, Repr
 
 def clientTlsOf (certGiven caGiven : Bool) (sn : Str) : ClientTls :=
@@ -126,14 +131,18 @@ def clientTlsOf (certGiven caGiven : Bool) (sn : Str) : ClientTls :=
 /-- `sn := cfg.Transport.TLS.ServerName; if sn == "" { sn = cfg.ServerAddr }` -/
 def effServerName (c : ClientCfg) : Str := if c.serverName = [] then c.serverAddr else c.serverName
 
+/-- the ALPN protocol name both ends put into `NextProtos` for QUIC: `[]string{"frp"}` -/
+def frpALPN : Str := [0x66, 0x72, 0x70]
+
 /-- `realConnect`: `tlsEnable := Enable; if protocol == "wss" { tlsEnable = true }`;
     `Open` for quic: always a tls.Config — the configured one if Enable, else
-    `NewClientTLSConfig("", "", "", sn)` (no verification). -/
+    `NewClientTLSConfig("", "", "", sn)` (no verification) — then `tlsConfig.NextProtos = []string{"frp"}`. -/
 def clientTls (c : ClientCfg) : Option ClientTls :=
   match c.protocol with
   | .quic =>
-    if c.tlsEnable then some (clientTlsOf c.certGiven c.trustedCA (effServerName c))
-    else some (clientTlsOf false false (effServerName c))
+    if c.tlsEnable then
+      some { clientTlsOf c.certGiven c.trustedCA (effServerName c) with nextProtos := [frpALPN] }
+    else some { clientTlsOf false false (effServerName c) with nextProtos := [frpALPN] }
   | .wss => some (clientTlsOf c.certGiven c.trustedCA (effServerName c))
   | _ => if c.tlsEnable then some (clientTlsOf c.certGiven c.trustedCA (effServerName c)) else none
 
@@ -223,6 +232,104 @@ def rawReply (s : ServerCfg) (b : Nat) : Option Nat :=
   if reachesReadMsg s b false then
     if b = 0x6f then some 0x31 else if b = 0x76 then some 0x33 else none
   else none
+
+/-! ## 3b. The server's listeners: which gate and which tls.Config each one puts in front of
+      `handleConnection` (server/service.go NewService / Run / HandleListener / HandleQUICListener) -/
+
+/-- every listener frps accepts frpc connections on:
+    `svr.listener` (muxer default), `svr.tlsListener` (muxer rule: first byte 0x17 / 0x16),
+    `svr.kcpListener`, `svr.websocketListener` (muxer rule "GET /~!frp", then the websocket stream),
+    `svr.quicListener`, `svr.sshTunnelListener` (in-process) -/
+inductive Listener | tcp | tlsMux | kcp | websocket | quic | sshTunnel
+  deriving DecidableEq, Repr
+
+def Listener.all : List Listener := [.tcp, .tlsMux, .kcp, .websocket, .quic, .sshTunnel]
+
+/-- what stands between `Accept` and `handleConnection` -/
+inductive Gate
+  | internal   -- `HandleListener(l, true)`: no sniff, no TLS (pipe inside the frps process)
+  | sniff      -- `HandleListener(l, false)`: `CheckAndEnableTLSServerConnWithTimeout(c, svr.tlsConfig, Force, …)`
+  | quicTls    -- `HandleQUICListener`: no sniff, no force test; the TLS 1.3 handshake is part of the QUIC
+               -- handshake and uses the config handed to `quic.ListenAddr`; every accepted stream goes
+               -- straight to `handleConnection(ctx, stream, false)`
+  deriving DecidableEq, Repr
+
+/-- `Run`: `go svr.HandleListener(svr.sshTunnelListener, true)`, `HandleListener(svr.kcpListener, false)`,
+    `HandleQUICListener(svr.quicListener)`, `HandleListener(svr.websocketListener, false)`,
+    `HandleListener(svr.tlsListener, false)`, `HandleListener(svr.listener, false)` -/
+def Listener.gate : Listener → Gate
+  | .sshTunnel => .internal
+  | .quic => .quicTls
+  | _ => .sniff
+
+/-- on the network (everything but the in-process ssh-gateway listener) -/
+def Listener.isPublic (l : Listener) : Bool := l != .sshTunnel
+
+/-- `tls.Config.Clone()`: every field is copied -/
+def ServerTls.clone (t : ServerTls) : ServerTls := { t with }
+
+/-- NewService: `quicTLSCfg := tlsConfig.Clone(); quicTLSCfg.NextProtos = []string{"frp"}` where
+    `tlsConfig` is the value also stored in `svr.tlsConfig` -/
+def quicServerTls (s : ServerCfg) : ServerTls := { (serverTls s).clone with nextProtos := [frpALPN] }
+
+/-- the tls.Config a handshake on this listener is run with (none: the listener never does TLS) -/
+def listenerTls (l : Listener) (s : ServerCfg) : Option ServerTls :=
+  match l.gate with
+  | .internal => none
+  | .sniff => some (serverTls s)       -- `svr.tlsConfig`
+  | .quicTls => some (quicServerTls s)
+
+/-- crypto/tls ALPN (ASSUMED, sampled): in QUIC mode both ends must agree on a protocol (the
+    handshake fails without a negotiated ALPN); on an ordinary tls.Conn an empty list on either side
+    negotiates nothing and succeeds, two non-empty lists must intersect -/
+def alpnOk (quicMode : Bool) (st : ServerTls) (ct : ClientTls) : Bool :=
+  let common := st.nextProtos.any fun x => ct.nextProtos.contains x
+  if quicMode then common else st.nextProtos.isEmpty || ct.nextProtos.isEmpty || common
+
+/-- a TLS handshake on listener `l` between the server's config for that listener and client
+    config `ct` completes on both ends -/
+def handshakeOkOn (l : Listener) (s : ServerCfg) (ct : ClientTls) (p : Pki) : Bool :=
+  match listenerTls l s with
+  | none => false
+  | some st =>
+    serverCertAccepted s ct p && clientCertAccepted st ct p && alpnOk (l.gate == .quicTls) st ct
+
+/-- does `handleConnection` ever call `msg.ReadMsg` on bytes of a peer that arrived on listener `l`?
+    `b` = first byte on the fresh connection (not looked at by QUIC: there is no sniff),
+    `hs` = the peer completes a TLS handshake which that listener's config accepts -/
+def reachesReadMsgOn (l : Listener) (s : ServerCfg) (b : Nat) (hs : Bool) : Bool :=
+  match l.gate with
+  | .internal => true
+  | .sniff => reachesReadMsg s b hs
+  | .quicTls => hs
+
+/-- first thing `handleConnection`'s side reads after the gate: a yamux header (version byte 0) when
+    tcpMux is on, else a frame whose type byte must be one it dispatches on -/
+def innerAccepts (mux : Bool) (b : Nat) : Bool :=
+  if mux then b == 0 else [0x6f, 0x77, 0x76].contains b
+
+/-- the listener a real frpc of protocol `pr` arrives on (`b` = the first byte it sends) -/
+def listenerOf (pr : Protocol) (b : Nat) : Listener :=
+  match pr with
+  | .tcp => if b = 0x17 ∨ b = 0x16 then .tlsMux else .tcp
+  | .kcp => .kcp
+  | .websocket => .websocket
+  | .wss => .tlsMux
+  | .quic => .quic
+
+/-- does a real frpc get a session, for every control transport?
+    tcp / kcp / websocket: the same hooks (custom byte, TLS) run on the (inner) stream and the server
+    sniffs it — `sessionUp`;  quic: the QUIC handshake with `quicServerTls`, no sniff, no force, no yamux;
+    wss: frps does not terminate wss — after the TLS layer its reader meets the 'G' of the websocket
+    upgrade request where a yamux header / frame type is expected and closes -/
+def sessionUpOn (s : ServerCfg) (c : ClientCfg) (p : Pki) : Bool :=
+  match c.protocol with
+  | .quic =>
+    match clientTls c with
+    | some ct => reachesReadMsgOn .quic s 0 (handshakeOkOn .quic s ct p)
+    | none => false
+  | .wss => innerAccepts s.tcpMux 0x47 && sessionUp s { c with tlsEnable := true } p
+  | _ => sessionUp s c p
 
 /-! ## 4. Messages, secrets, channels, layers -/
 
